@@ -400,7 +400,11 @@ pub fn random_step(w: &mut World, sc: &Scenario, rec: &mut Recorder) {
                     }
                     let (l, _, _) = w.pos_range(&p).unwrap();
                     let nl = if w.rng.gen_bool(0.5) { l } else { log_uniform(w, sc.liq_bits.0, sc.liq_bits.1) };
-                    let ix = w.ix_reposition(&p, &owner, a, b, nl, 0, 0, u64::MAX, u64::MAX);
+                    let min_a = pick(w, &[0u64, 0, 0, 1, 1000]);
+                    let min_b = pick(w, &[0u64, 0, 0, 1, 1000]);
+                    let max_a = pick(w, &[u64::MAX, u64::MAX, u64::MAX, 1_000_000, 1_000_000_000_000]);
+                    let max_b = pick(w, &[u64::MAX, u64::MAX, u64::MAX, 1_000_000, 1_000_000_000_000]);
+                    let ix = w.ix_reposition(&p, &owner, a, b, nl, min_a, min_b, max_a, max_b);
                     rec.exec(w, &ix, false, json!(null));
                 }
             }
